@@ -559,7 +559,7 @@ CORPUS = [
     '```\nx = (1 +\r2)\n```', '```\nx = 1\ry = 2\n```', '```\rx = 1\r```', '```\r\nx = 1\r\n```', '```\nx = 1\x0cy = 2\n```', '```\nx = 1\x85y = 2\n```', '```\nx = 1\x0by = 2\n```',
     'Y = (X +\r Z)', 'Y = (X +\x0c Z)', 'Y = (X +\x85 Z)', 'Y = (X +\x1c Z)', '(Y =\r\n X)', '`x = 1\ry = 2`', 'Y = X\rZ = W', 'Y = X\x1dZ = W', 'Y = X\x1eZ = W',     # separators other than LF
     'status = 1', 'Y = lags', 'Y = {check}', '`x = 1; from os import *`',                          # NEW: accepted but cannot be built / instantiated
-    'Y = ' + '+'.join(['X'] * 3000), 'Y = ' + '-' * 6000 + 'X',                                   # NEW: RecursionError / MemoryError from compile()
+    'Y = ' + '+'.join(['X'] * 3000), 'Y = ' + '-' * 6000 + 'X',                                   # RecursionError / MemoryError from compile(): ParserError since 74fa5fb (must still terminate within the watchdog)
     'Y = ' + '(' * 250 + 'X' + ')' * 250, 'Y = X[' + '1' * 5000 + ']',
     'Y = X[' + '1' * 4300 + ']', 'Y = X[' + '1' * 4301 + ']', 'Y = X[ -' + '0' * 4299 + '_1 ]', 'Y = X[+' + '0' * 4300 + '_1]',   # int() digit limit
 ]
